@@ -603,8 +603,9 @@ class MyPyAstVisitor:
 
             # We have to sort the list for the snapshot tests
             return_stmt_types = list(types)
+            # The second key component makes the order total, so that it does not depend on the iteration order of the set
             return_stmt_types.sort(
-                key=lambda x: (x.name if isinstance(x, sds_types.NamedType) else str(len(x.types))),
+                key=lambda x: (x.name if isinstance(x, sds_types.NamedType) else str(len(x.types)), str(x.to_dict())),
             )
 
             return sds_types.TupleType(types=return_stmt_types)
